@@ -213,6 +213,10 @@ func (ps *specParser) parseExpr() Expr {
 			ty := ""
 			if ps.peek().kind == "id" {
 				ty = ps.next().text
+				if ps.isOp(".") {
+					ps.next()
+					ty += "." + ps.next().text
+				}
 			}
 			tys = append(tys, ty)
 			if !ps.accept(",") {
